@@ -530,3 +530,66 @@ def _fmt_ref(r):
     if isinstance(r, tuple):
         return str(r[1])
     return str(r)
+
+
+# ------------------------------------------------------------------ correlated branches ----
+def correlated_sequences(B, event_fn, **kw):
+    """success_sequences without the paths that contradict themselves about an enum value: a path that builds `Step::A(..)` and
+    later takes the arm for `Step::B` of a match on that value does not exist.  (A function split into "prepare a value of a small
+    enum" and "act on it" has such a pair of branches in every caller the halves were spliced into.)  Only enums of the workspace,
+    only literals assigned to whole locals, only switches whose arm blocks are entered from the switch alone."""
+    WS_ = ('edp_client::', 'edp_node::', 'erltf::', 'erltf_serde::', 'edp_elixir_terms::')
+    lit_at, lit_local, lit_adt = {}, {}, {}
+    n = 0
+    for bb, j, st in B.stmts():
+        if st['k'] == '=' and not st['pl'].get('p') and st['rv']['k'] == 'agg' and st['rv'].get('ak') == 'adt' and 'vi' in st['rv'] and str(st['rv'].get('adt', '')).startswith(WS_):
+            n += 1
+            lit_at.setdefault(bb, []).append((n, st['rv']['vi']))
+            lit_local[n] = st['pl']['l']
+            lit_adt[n] = st['rv']['adt']
+    tests = {}
+    if len(lit_local) >= 2:
+        derived = {k: (B.derived_locals([l]) | {l}) for k, l in lit_local.items()}
+        preds = B.preds()
+        for sb in sorted(B.live_blocks()):
+            sd = B.switch_on_discr(sb)
+            if not sd or not str(sd[1]).replace('&', '').startswith(WS_):
+                continue
+            ty_ = str(sd[1]).replace('&', '').split('<')[0]
+            cands = frozenset(k for k in lit_local if lit_adt[k].split('<')[0] == ty_ and sd[0]['l'] in derived[k])
+            if len({v for k in cands for b_, vs in lit_at.items() for (k2, v) in vs if k2 == k}) < 2:
+                continue
+            listed = [v for v, _ in sd[2]]
+            for v, tgt in sd[2]:
+                if preds.get(tgt, []) == [sb] and tgt != sd[3]:
+                    tests[tgt] = (cands, ('is', v))
+            if preds.get(sd[3], []) == [sb] and sd[3] not in [t_ for _, t_ in sd[2]]:
+                tests[sd[3]] = (cands, ('not', tuple(listed)))
+    if not tests:
+        return success_sequences(B, event_fn, **kw)
+
+    def ev2(B_, bb):
+        out = []
+        if bb in tests:
+            out.append(('§test',) + tests[bb])
+        for k, vi in lit_at.get(bb, []):
+            out.append(('§set', k, vi))
+        return out + list(event_fn(B_, bb))
+    seqs, trunc = success_sequences(B, ev2, **kw)
+    res = set()
+    for s_ in seqs:
+        last, ok, pos = {}, True, 0
+        for e in s_:
+            pos += 1
+            if isinstance(e, tuple) and e and e[0] == '§set':
+                last[e[1]] = (pos, e[2])
+            elif isinstance(e, tuple) and e and e[0] == '§test':
+                seen_ = [last[k] for k in e[1] if k in last]
+                if seen_:
+                    vi = max(seen_)[1]
+                    if (e[2][0] == 'is' and vi != e[2][1]) or (e[2][0] == 'not' and vi in e[2][1]):
+                        ok = False
+                        break
+        if ok:
+            res.add(tuple(e for e in s_ if not (isinstance(e, tuple) and e and isinstance(e[0], str) and e[0].startswith('§'))))
+    return res, trunc
